@@ -621,7 +621,7 @@ fn similar(t: &Tok) -> Tok {
     }
 }
 
-const ND: usize = 16;
+const ND: usize = 17;
 const NU: usize = 12;
 const NB: usize = 6;
 const CORE_D: [usize; 8] = [0, 1, 2, 3, 4, 5, 6, 7];
@@ -665,7 +665,16 @@ fn delimited_shape(k: usize, d: &[Tok], l: [char; 3]) -> Vec<Tok> {
                 vec![x.clone(), x]
             }
         }
-        _ => cat(&[&[x], &grp(&dbal), &[y]]),
+        15 => cat(&[&[x], &grp(&dbal), &[y]]),
+        _ => {
+            // a failed partial match that needs more than one fall-back step of a KMP matcher:
+            // for `aab` the argument `aaxab` (then the real delimiter follows)
+            if d.len() >= 2 {
+                cat(&[&d[..d.len() - 1], &[x], &d[1..d.len() - usize::from(d.last() == Some(&Tok::Begin))]])
+            } else {
+                vec![x.clone(), y, x]
+            }
+        }
     }
 }
 
@@ -1024,7 +1033,7 @@ impl Monitor for M {
         "A case is one \\def/\\gdef (prefix x up to 9 parameters, each undelimited or delimited, optional #{, \
          replacement text over literals, #n, ##, nested groups) run in one VM with many calls; each call is one \
          evaluation. enum12: every spec with prefix in {e,a,ab}, 0-2 parameters, delimiter in {none, ., ab, aab, \\x}, \
-         optional #{, 8 replacement texts, times every tuple of the 12 (undelimited) / 16 (delimited) argument shapes \
+         optional #{, 8 replacement texts, times every tuple of the 12 (undelimited) / 17 (delimited) argument shapes \
          (empty, token, {}, {x}, {x}{y}, x{y}, {x}y, {{x}}, leading/trailing space, delimiter inside braces, partial \
          delimiter prefixes such as aa|aab, ...). enum3: the same with 3 parameters and the 8/6 core shapes. random: \
          random specs with 0-9 parameters, random delimiters (also spaces and control sequences) and random balanced \
@@ -1044,7 +1053,7 @@ impl Monitor for M {
 
     fn phases(&self, tier: Tier) -> Vec<Phase> {
         let mut v = vec![Phase::new("enum12", ENUM12_CASES).batch(8).exhaustive(
-            "all definitions with prefix in {empty,a,ab}, 0-2 parameters each delimited by one of {none, ., ab, aab, \\x}, optional #{, 8 replacement texts, called with every tuple of the 12/16 enumerated argument shapes",
+            "all definitions with prefix in {empty,a,ab}, 0-2 parameters each delimited by one of {none, ., ab, aab, \\x}, optional #{, 8 replacement texts, called with every tuple of the 12/17 enumerated argument shapes",
         )];
         match tier {
             Tier::Quick => v.push(Phase::new("enum3", ENUM3_CASES / 10).batch(4)),
@@ -1076,7 +1085,6 @@ impl Monitor for M {
             ("arg:undelimited:token", 10_000),
             ("arg:undelimited:leading-space-skipped", 2_000),
             ("events_observed", 200_000),
-            ("calibration_cases_agreeing", CALIBRATION.len() as u64),
         ]
     }
 
